@@ -147,9 +147,9 @@ Proof.
   destruct (Z.Even_or_Odd x) as [(m & ->)|(m & ->)]; lia.
 Qed.
 
-(* is_nth_residue divides by the exponent: n = 0 is a division by zero *)
+(* is_nth_residue divides by the exponent: n = 0 is a division by zero (the process dies) *)
 Theorem is_nth_residue_zero_exponent_crash :
-  nt_is_nth_residue 2 0 4 = ErrExn EXN_DIVZERO.
+  nt_is_nth_residue 2 0 4 = ErrExn EXN_FPE.
 Proof. vm_compute. reflexivity. Qed.
 
 (* Lehman's method starts at floor(sqrt(4kn)) instead of the ceiling and misses 35 = 5 * 7 *)
